@@ -17,6 +17,9 @@ def plan(tier, seed):
                 jobs.append(J(f"{d} n=4 B=2", "ll_job", decode_type=d, n=4, B=2))
             jobs.append(J("multistart_greedy n=4 k=2", "ll_job", decode_type="multistart_greedy", n=4, B=2, num_starts=2))
             jobs.append(J("greedy n=3 B=3", "ll_job", decode_type="greedy", n=3, B=3))
+            jobs += [J("sampling n=4 B=2 temperature=2 flagged steps", "ll_job", decode_type="sampling", n=4, B=2, temperature=2.0, flagged=True),
+                     J("multistart_sampling n=4 B=2 flagged steps", "ll_job", decode_type="multistart_sampling", n=4, B=2, flagged=True),
+                     J("greedy n=4 B=3 temperature=0.5", "ll_job", decode_type="greedy", n=4, B=3, temperature=0.5), J("sampling n=3 B=1", "ll_job", decode_type="sampling", n=3, B=1)]
     else:
         jobs = [J("n=3 w=2 B=1", "beam_job", n=3, W=2, B=1), J("n=3 w=2 B=2", "beam_job", n=3, W=2, B=2), J("n=3 w=2 B=2 select_best", "beam_job", n=3, W=2, B=2, select_best=True),
                 J("n=3 w=3 B=2", "beam_job", n=3, W=3, B=2)]
